@@ -141,17 +141,32 @@ def run_api(case):
     return Outcome(True, nontriv, cls, metrics=met)
 
 
+def fit_grid(L, n, it):
+    """(n, largest admissible shift in cells): the start distribution has compact support of radius 4.5 sigma with sigma >=
+    2.5 cells (resolved) around a centroid of radius >= 0.2; it has to stay clear of the border by it+2 cells for the whole
+    orbit on the shifted grid.  Coarse grids cannot hold that for large shifts (a thorough run found n=32, L=4, shift 4
+    cells, sigma = 2.5 cells: support reaching the border, first moment off by 1e-3) - the shift is limited, and the grid
+    refined where even the unshifted grid is too coarse."""
+    while True:
+        delta = 2 * L / (n - 1)
+        smin = max(0.4, 2.5 * delta)
+        ms = int(np.floor((L - (it + 2) * delta - (4.5 * smin + 0.5)) / delta))
+        if ms >= 0:
+            return n, min(n // 8, ms)
+        n += 8
+
+
 @st.composite
 def gaussians(draw, L, n, it, maxshift_cells):
-    """mixture whose centroid has radius 0.2..2 and whose 5 sigma support stays inside the grid for the whole orbit"""
+    """mixture whose centroid has radius 0.2..2 and whose (compact, 4.5 sigma) support stays inside the grid for the whole orbit"""
     delta = 2 * L / (n - 1)
     room = L - maxshift_cells * delta - (it + 2) * delta
     ng = draw(st.integers(1, 3))
     gs = []
     for _ in range(ng):
         smin = max(0.4, 2.5 * delta)          # resolved: sigma >= 2.5 cells
-        s = draw(st.floats(smin, max(smin + 0.01, min(1.2, (room - 0.3) / 6))))
-        rmax = max(0.25, min(2.0, room - 5 * s))
+        s = draw(st.floats(smin, max(smin, min(1.2, (room - 0.5) / 4.5))))
+        rmax = max(0.2, min(2.0, room - 4.5 * s - 0.05))
         r = draw(st.floats(0.2, rmax))
         ph = draw(st.floats(0, 2 * np.pi))
         gs.append(dict(a=gen.f32(draw(st.floats(0.3, 1.0))), mq=gen.f32(r * np.cos(ph)), mp=gen.f32(r * np.sin(ph)), s=gen.f32(s)))
@@ -180,7 +195,7 @@ def api_cases(draw):
     L = draw(st.sampled_from([4.0, 6.0, 8.0]))
     n = draw(st.integers(max(32, int(6.5 * L) + 1), 128))
     it = draw(st.sampled_from([2, 3, 4]))
-    ms = n // 8
+    n, ms = fit_grid(L, n, it)
 
     def shift():
         return float(draw(st.integers(-ms, ms))) if draw(st.booleans()) else (gen.f32(draw(st.floats(-ms, ms))) if draw(st.booleans()) else 0.0)
@@ -190,7 +205,12 @@ def api_cases(draw):
     if nb > 1:
         c["nb"] = nb
     if draw(st.integers(0, 3)) == 0:
+        # "for small amplitudes": the cubic term of the sine is (q*bl2phase)^2/6 relative; amplitudes <= 0.3 keep it far
+        # below the model oracle's tolerance (at r = 1.9 it reached 0.7 of it)
         c["sin"] = True
+        for g in c["gauss"]:
+            sc = 0.3 / max(0.3, np.hypot(g["mq"], g["mp"]))
+            g["mq"], g["mp"] = gen.f32(g["mq"] * sc), gen.f32(g["mp"] * sc)
     return c
 
 
@@ -242,7 +262,7 @@ def cli_cases(draw):
     L = draw(st.sampled_from([4.0, 6.0, 8.0]))
     n = draw(st.integers(max(32, int(6.5 * L) + 1), 96))
     it = draw(st.sampled_from([2, 3, 4]))
-    ms = n // 8
+    n, ms = fit_grid(L, n, it)
     linear = draw(st.booleans())
     c = dict(n=n, L=L, it=it, steps=draw(st.integers(20, 200)), linear=linear,
              sx=float(draw(st.integers(-ms, ms))) if draw(st.booleans()) else 0.0,
